@@ -4,7 +4,7 @@ from props.m1common import rng_for, is_err
 import sx
 
 PID = "C16"
-KERNELS = ['K_leaf_set', 'K_apply_once_step', 'K_set_duration']   # translated from /repo on every run, tied to the model by coq/Gen/<name>_eq.v
+KERNELS = ['K_leaf_set', 'K_apply_once_step', 'K_set_duration', 'K_get_parameter']   # translated from /repo on every run, tied to the model by coq/Gen/<name>_eq.v
 RUNNER = "impl_m3.py"
 N = {"quick": 2500, "thorough": 80000}
 VM_CROSSCHECK = True
